@@ -50,6 +50,11 @@ def refactorings():
         syms = [s for s in dict.fromkeys(syms) if s not in ("F", "Y") and not s.startswith("A_")]
         k = min(len(syms), r.randint(1, 3))
         chosen = r.sample(syms, k)
+        # symbols defined through IF blocks (Piecewise) are re-translated to code when renamed: prefer one of them
+        pw = [s.symbol.name for s in m.statements if hasattr(s, "symbol") and s.symbol.name in syms and s.expression.is_piecewise()]
+        if pw and r.random() < 0.6:
+            first = r.choice(sorted(set(pw)))
+            chosen = [first] + [x for x in chosen if x != first][: k - 1]
         mapping = {s: f"{s}_RN{i}" for i, s in enumerate(chosen)}
         if len(chosen) >= 2 and r.random() < 0.4 and not (_NM_RESERVED.match(chosen[0]) or _NM_RESERVED.match(chosen[1])):
             # a swap (not of PREDPP-reserved names: the NONMEM code generator re-creates those - S1, ALAG1, F1 ... - by
